@@ -25,18 +25,25 @@ Print Assumptions C02_complete_defaults.
 (* ====================================================================================================
    Semantic clause, by composition (proofs/EagerModelSem_proofs.v):
      get_value = complete ; MGSubstituter.substitute ; simplify ; "is it a constant?"
-     C05 substitution lemma (for a model) + C01 simplify_sound / fold_complete + coincidence.
+     substitution of a model (C05 development: subst_const) + C01 simplify_sound / fold_complete + coincidence.
    FULL statement aimed at: for every formula f without quantifiers / uninterpreted functions,
    every assignment m of constants to symbols and every well-formed interpretation I that agrees
    with m and gives the other free symbols of f their documented defaults, under which no Int/Real
    division by zero is evaluated:  get_value m f returns the constant denoting eval I f.
-   PROVED for the common fragment [gfrag]: operators And Or Not Implies Iff Ite Equals Plus Times
-   Minus LE LT Div, the five kinds of constants and symbols of any inhabited first-order sort
-   (= cfrag of C01 + symbols, minus ToReal and Pow, which are outside the fragment of the C05
-   substitution lemma), with the node conditions of both ingredients (arities as the constructors
-   guarantee, canonical Real constants, BV constants in range, no negation directly under a
-   negation or as a divisor).  Outside: bit-vector / string / array operators, ToReal, Pow,
-   quantifiers, function applications.
+   PROVED (the *_partial theorems below) for the common fragment [gfrag] = terms built from exactly
+     Boolean:      And Or Not Implies Iff Ite Equals
+     Int / Real:   Plus Times Minus LE LT Div ToReal
+     bit-vectors:  bvnot bvneg bvand bvor bvxor bvadd bvsub bvmul bvudiv bvurem bvsdiv bvsrem
+                   bvshl bvlshr bvashr concat bvcomp, bvult bvule bvslt bvsle, bv2nat
+                   (every width > 0, every operand value: division / remainder by zero included)
+     leaves:       Bool Int Real BV String constants; symbols of any inhabited first-order sort
+                   (defaults exist for Bool, Int, Real and BV symbols: false, 0, 0.0, 0_w)
+   with the node conditions of the ingredients: arities as the constructors guarantee (And Or
+   Plus Times with >= 2 arguments), canonical Real constants with positive denominator, BV
+   constants in range, BV payload widths > 0, no negation directly under a negation or as a
+   divisor.  NOT covered: Pow, bv extract / rotate-left / rotate-right / zero-extend /
+   sign-extend, string operators, array select / store / values, quantifiers, function
+   applications.
    Vocabulary: model_ok m = every entry is (symbol, constant of the symbol's sort, as the manager
    builds it); agrees I m = I gives every assigned symbol the value of its constant; defaults_on
    I m f = I gives every unassigned free symbol of f the value of default_value of its sort;
@@ -90,7 +97,7 @@ Theorem C02_get_value_exact_model_partial : forall ora m f ty c,
   is_const c = true /\ tc c = Some ty /\ eval (model_interp m) c = eval (model_interp m) f.
 Proof. exact get_value_exact_model_partial. Qed.
 
-(* a non-trivial instance: f = (x + z + 2 <= y) & !b & (r / q = 3/2), m = {x:=3, y:=7, r:=3.0, q:=2.0} *)
+(* a non-trivial instance: f = (x + z + 2 <= y) & !b & (r / q + to_real(x) = 9/2), m = {x:=3, y:=7, r:=3.0, q:=2.0} *)
 Theorem C02_get_value_example :
   model_ok exm_m /\ gfrag exm_f = true /\ tc exm_f = Some TBool /\
   wf_interp (model_interp exm_m) /\ agrees (model_interp exm_m) exm_m /\
@@ -100,6 +107,19 @@ Theorem C02_get_value_example :
   satisfies no_oracle exm_m exm_f = Some true.
 Proof. exact get_value_example. Qed.
 
+(* bit-vectors, width 4, partial model {u := 9}: bvslt(bvashr(bvadd(u, v), 1), bvudiv(u, z)) with
+   v, z defaulted to 0: bvadd = 9, bvashr = 12 (-4), bvudiv by zero = 15 (-1), -4 <s -1 *)
+Theorem C02_get_value_example_bv :
+  model_ok exb_m /\ gfrag exb_f = true /\ tc exb_f = Some TBool /\
+  wf_interp (model_interp exb_m) /\ agrees (model_interp exb_m) exb_m /\
+  defaults_on (model_interp exb_m) exb_m exb_f /\ nodiv0 (model_interp exb_m) exb_f /\
+  get_value no_oracle exb_m exb_l true = Some (TBVC 12 4) /\
+  get_value no_oracle exb_m exb_r true = Some (TBVC 15 4) /\
+  get_value no_oracle exb_m exb_f true = Some TTrue /\
+  get_value no_oracle exb_m exb_f false = None /\
+  satisfies no_oracle exb_m exb_f = Some true.
+Proof. exact get_value_example_bv. Qed.
+
 Print Assumptions C02_get_value_exact_partial.
 Print Assumptions C02_get_value_total_partial.
 Print Assumptions C02_get_value_partial_sound_partial.
@@ -107,3 +127,4 @@ Print Assumptions C02_satisfies_iff_partial.
 Print Assumptions C02_model_interp_ok.
 Print Assumptions C02_get_value_exact_model_partial.
 Print Assumptions C02_get_value_example.
+Print Assumptions C02_get_value_example_bv.
